@@ -242,8 +242,18 @@ def replStr (q : List (Bytes × Bytes)) (k : Bytes) : Bytes :=
 def replBad (q : List (Bytes × Bytes)) (k : Bytes) : Bool := !(replStr q k).isEmpty && (atoi (replStr q k)).isNone
 def replVal (q : List (Bytes × Bytes)) (k : Bytes) : Int := if (replStr q k).isEmpty then 0 else (atoi (replStr q k)).getD 0
 
+/-- strings.ToLower on ASCII -/
+def lower (s : Bytes) : Bytes := s.map (fun c => if 65 ≤ c && c ≤ 90 then c + 32 else c)
+
+/-- a hash function other than sha2-256 is asked for together with an explicit `cid-version=0`
+    (fix 6355d34: CIDv0 only carries sha2-256; without an explicit version the adder moves to CIDv1) -/
+def hashNeedsV1 (q : List (Bytes × Bytes)) : Bool :=
+  !(qGet q b!"hash").isEmpty && lower (qGet q b!"hash") != b!"sha2-256" &&
+  !(qGet q b!"cid-version").isEmpty && atoi (qGet q b!"cid-version") == some 0
+
 /-- api.AddParamsFromQuery returns an error (for the keys the model covers) -/
 def addParamsErr (q : List (Bytes × Bytes)) : Bool :=
+  hashNeedsV1 q ||
   replBad q b!"replication-min" || replBad q b!"replication-max" ||
   (!(qGet q b!"shard-size").isEmpty && !uintOK (qGet q b!"shard-size")) ||
   !(qGet q b!"layout" == b!"trickle" || qGet q b!"layout" == b!"balanced" || (qGet q b!"layout").isEmpty) ||
